@@ -37,13 +37,65 @@ from vloop import VirtualLoop, FakeTransport
 
 POLL = 0.0001
 HB = 0.05                      # heartbeat interval (both directions) of logged-in sessions, virtual seconds
-WALL_PER_FRAME = 1.0           # wall seconds one deserialize() call may take
-CASE_WALL = 3.0                # wall seconds after which a case is aborted (the loop is blocked)
+WALL_PER_FRAME = 1.0           # seconds one deserialize() call may take (measured as CPU time of this process: robust against a loaded machine)
+CASE_WALL = 4.0                # CPU seconds after which a scenario is aborted (the loop is blocked); the costliest legitimate one takes < 1.5 s
 MAX_DESER = 400000
 KINDS = [('soup-client', 'pre'), ('soup-client', 'post'), ('soup-server', 'pre'), ('soup-server', 'post'), ('fix', 'pre'), ('fix', 'post')]
 UNDELIMITED_OBSERVATION = os.environ.get('VERIF_UNDELIMITED_OBSERVATION') == '1'   # for the record only, never part of a verdict (see hostile_gen)
 
+APP_KINDS = [('itch', 'post'), ('ouch', 'post'), ('sqf', 'post')]      # application sessions on top of a logged-in soup client session
 _L = {}
+_APP = {}
+
+
+def app_libs(kind):
+    """one small application per protocol, written the way the code generator writes it (own app name: registries are global):
+    message 1 `Num` {n: long}; 2 `Txt` {n: long, s: variable-length ASCII string, m: long}; 3 `Arr` {n: long, a: array of short,
+    t: array of strings}; 4 `Fix` {n: long, f: fixed string of 4}"""
+    if kind in _APP:
+        return _APP[kind]
+    from nasdaq_protocols.common import Record, Field, LongBE, ShortBE, AsciiString, FixedAsciiString, Array
+    from nasdaq_protocols import itch, ouch, sqf
+    impl = {'itch': itch, 'ouch': ouch, 'sqf': sqf}[kind]
+    app = 'h07_' + kind
+
+    class Base(impl.Message, app_name=app):
+        def __init_subclass__(cls, **kwargs):
+            kwargs['app_name'] = app
+            super().__init_subclass__(**kwargs)
+    extra = {} if kind == 'itch' else {'direction': 'outgoing'}
+
+    class Num(Base, indicator=1, **extra):
+        class BodyRecord(Record):
+            Fields = [Field('n', LongBE)]
+
+    class Txt(Base, indicator=2, **extra):
+        class BodyRecord(Record):
+            Fields = [Field('n', LongBE), Field('s', AsciiString), Field('m', LongBE)]
+
+    class Arr(Base, indicator=3, **extra):
+        class BodyRecord(Record):
+            Fields = [Field('n', LongBE), Field('a', Array(ShortBE, length_type=ShortBE)), Field('t', Array(AsciiString, length_type=ShortBE))]
+
+    class Fxd(Base, indicator=4, **extra):
+        class BodyRecord(Record):
+            Fields = [Field('n', LongBE), Field('f', FixedAsciiString(4))]
+
+    class Sess(impl.ClientSession):
+        @classmethod
+        def decode(cls, bytes_):
+            return Base.from_bytes(bytes_)
+    _APP[kind] = {'Session': Sess, 'Base': Base, 'classes': (Num, Txt, Arr, Fxd)}
+    return _APP[kind]
+
+
+APP_MARK = 0x5A5A5A         # top three bytes of the 8-byte number of the harness's own numbered application messages
+
+
+def app_payload(n):
+    """independent encoder of the numbered application message `Num` (indicator byte 1, 8-byte big-endian number: 5A 5A 5A + n in
+    5 bytes — no truncated, padded or random hostile payload decodes to such a number)"""
+    return b'\x01' + ((APP_MARK << 40) | int(n)).to_bytes(8, 'big')
 
 
 def libs():
@@ -95,6 +147,12 @@ def fix_fields(ty, seq, user=None, extra=()):
 
 def valid_frame(kind, tok, seq=1):
     """tok: ('msg', n) | 'hb' | 'login' (the frame that completes / starts the login of this kind of session)"""
+    if kind in ('itch', 'ouch', 'sqf'):
+        if tok == 'hb':
+            return HG.soup_pkt(b'H')
+        if tok == 'login':
+            return HG.soup_pkt(b'A', b'sess      ' + b'1'.rjust(20))
+        return HG.soup_pkt(b'S', app_payload(tok[1]))
     if kind == 'soup-client':
         if tok == 'hb':
             return HG.soup_pkt(b'H')
@@ -116,6 +174,12 @@ def valid_frame(kind, tok, seq=1):
 
 def number_of(kind, m):
     """the number a delivered message carries (None: not one of the harness's numbered data messages)"""
+    if kind in ('itch', 'ouch', 'sqf'):
+        try:
+            n = m.n if type(m) in app_libs(kind)['classes'] else None
+            return (n & 0xFFFFFFFFFF) if isinstance(n, int) and (n >> 40) == APP_MARK else None
+        except Exception:  # noqa
+            return None
     L = libs()
     try:
         if kind == 'fix':
@@ -160,11 +224,11 @@ def probe_cls(reader_cls):
             rec['n_deser'] += 1
             if rec['n_deser'] > MAX_DESER:
                 raise ReaderHang(f'the reader called deserialize() more than {MAX_DESER} times in one scenario')
-            t0 = time.perf_counter()
+            t0 = time.process_time()
             try:
                 return super().deserialize()
             finally:
-                dt = time.perf_counter() - t0
+                dt = time.process_time() - t0
                 if dt > rec['max_wall']:
                     rec['max_wall'] = dt
     Probe.__name__ = 'H07Probe' + reader_cls.__name__
@@ -173,7 +237,7 @@ def probe_cls(reader_cls):
 
 
 def _on_alarm(signum, frame):
-    raise ReaderHang(f'the event loop was blocked: the scenario did not finish within {CASE_WALL} s of wall clock')
+    raise ReaderHang(f'the event loop was blocked: the scenario did not finish within {CASE_WALL} s of CPU time')
 
 
 # ====================================================================== one scenario on the implementation
@@ -222,7 +286,10 @@ async def _scenario(case, rec, res):
         cb.append(loop.time())
 
     hb = case.get('hb', HB)
-    if kind == 'soup-client':
+    app = None
+    if kind in ('itch', 'ouch', 'sqf'):
+        s = soup.SoupClientSession(client_heartbeat_interval=hb, server_heartbeat_interval=hb)
+    elif kind == 'soup-client':
         s = soup.SoupClientSession(on_msg_coro=on_msg, on_close_coro=on_close, client_heartbeat_interval=hb, server_heartbeat_interval=hb)
     elif kind == 'soup-server':
         s = L['Server'](client_heartbeat_interval=hb, server_heartbeat_interval=hb)
@@ -273,7 +340,7 @@ async def _scenario(case, rec, res):
 
     # ---- login
     if phase == 'post':
-        if kind == 'soup-client':
+        if kind in ('soup-client', 'itch', 'ouch', 'sqf'):
             t = asyncio.create_task(s.login(soup.LoginRequest('u', 'p', 's', '1')), name='U-login')
         elif kind == 'fix':
             fix, fixm = L['fix'], L['fixm']
@@ -286,6 +353,8 @@ async def _scenario(case, rec, res):
         tr.feed(valid_frame(kind, 'login', 1))
         if t is not None:
             await asyncio.wait_for(t, 0.02)
+            if kind in ('itch', 'ouch', 'sqf'):
+                app = res['app'] = app_libs(kind)['Session'](s, on_msg_coro=on_msg, on_close_coro=on_close)
         else:
             for _ in range(60):
                 if tr.writes:
@@ -360,7 +429,7 @@ async def _scenario(case, rec, res):
     res['n_tcloses_before_final'] = len(tr.closes)
     res['cb_before_final'] = len(cb)
     try:
-        await asyncio.wait_for(s.close(), 1.0)
+        await asyncio.wait_for((app or s).close(), 1.0)
         res['final_close'] = 'ok'
     except asyncio.TimeoutError:
         res['final_close'] = 'blocked for more than 1 s of virtual time'
@@ -382,8 +451,8 @@ def run_case(case):
     rec = {'on': True, 'log': [], 'n_deser': 0, 'max_wall': 0.0}
     res = {'log': rec['log'], 'rec': rec}
     loop = VirtualLoop()
-    signal.signal(signal.SIGALRM, _on_alarm)
-    signal.setitimer(signal.ITIMER_REAL, CASE_WALL)
+    signal.signal(signal.SIGPROF, _on_alarm)
+    signal.setitimer(signal.ITIMER_PROF, CASE_WALL)
     t0 = time.perf_counter()
     try:
         loop.run(_scenario(case, rec, res))
@@ -392,7 +461,7 @@ def run_case(case):
     except Exception as e:  # noqa
         res['raised'] = f'{err_name(e)}: {e!r:.200}'
     finally:
-        signal.setitimer(signal.ITIMER_REAL, 0)
+        signal.setitimer(signal.ITIMER_PROF, 0)
         for pc in _PROBES.values():
             pc.h_rec = None
     res['wall'] = time.perf_counter() - t0
@@ -402,7 +471,7 @@ def run_case(case):
                               if not t.get_name().startswith('U-') and not isinstance(t.exception(), ReaderHang)
                               and t.get_coro().__qualname__ != '_scenario']
     res['loop_exceptions'] = [str(c.get('message')) + (':' + err_name(c['exception']) if c.get('exception') else '') for c in loop.loop_exceptions]
-    signal.setitimer(signal.ITIMER_REAL, CASE_WALL)       # (a loop torn out of a blocked call may not wind down either)
+    signal.setitimer(signal.ITIMER_PROF, CASE_WALL)       # (a loop torn out of a blocked call may not wind down either)
     try:
         loop.shutdown()
     except BaseException:  # noqa
@@ -411,9 +480,10 @@ def run_case(case):
         except BaseException:  # noqa
             pass
     finally:
-        signal.setitimer(signal.ITIMER_REAL, 0)
+        signal.setitimer(signal.ITIMER_PROF, 0)
     res.pop('session', None)
     res.pop('tr', None)
+    res.pop('app', None)
     return res
 
 
@@ -427,7 +497,7 @@ def oracle(case, res):
     if 'hang' in res:
         return [f'{cls}: {res["hang"]} (longest single deserialize() call: {res["max_wall"]:.2f} s)']
     if res['max_wall'] > WALL_PER_FRAME:
-        out.append(f'{cls}: one deserialize() call blocked the event loop for {res["max_wall"]:.2f} s of wall clock')
+        out.append(f'{cls}: one deserialize() call blocked the event loop for {res["max_wall"]:.2f} s (CPU time)')
     if res['loop_exceptions']:
         out.append(f'{cls}: exception reached the event loop: {res["loop_exceptions"][0]}')
     if res['task_exceptions']:
@@ -487,7 +557,7 @@ class _FixSide:
 
 def side_of(case):
     import c03
-    return c03.SoupSide if case['sess'].startswith('soup') else _FixSide
+    return c03.SoupSide if case['sess'] != 'fix' else _FixSide
 
 
 def model_cost(log):
@@ -604,6 +674,11 @@ def build_case(rng, kind, phase, bad, style=None):
 
 
 def malformed_for(rng, kind, follow_len=120, undelimited=False):
+    if kind in ('itch', 'ouch', 'sqf'):
+        # the application layer: malformed application payloads inside well-formed SequencedData packets, plus a sample of the
+        # soup-level classes (the soup session underneath must still close / go on, and take the application session with it)
+        soup_level = HG.soup_malformed(rng, to_client=True)
+        return HG.app_malformed(rng) + rng.sample([b for b in soup_level if b['len'] < 5000], 12)
     if kind == 'fix':
         good = fix_fields('N', 7, 'hostile')
         out = HG.fix_malformed(rng, good, FIX_VER, follow_len=follow_len, undelimited=undelimited)
@@ -651,14 +726,16 @@ def fix_group_classes(rng):
 def gen_cases(ctx, quick):
     """yield hostile cases: every class x (session kind, phase), segmentation drawn per case; a few expensive ones per run"""
     rng = ctx.rng
-    per_class = 1 if quick else 6
-    for kind, phase in KINDS:
+    per_class = 1 if quick else 20
+    for kind, phase in KINDS + APP_KINDS:
         classes = malformed_for(rng, kind, undelimited=UNDELIMITED_OBSERVATION)
         small = [b for b in classes if b['len'] < 5000 or 'MODEL_BOUNDARY' in b['cls']]
         big = [b for b in classes if b['len'] >= 5000 and 'MODEL_BOUNDARY' not in b['cls']]
         for bad in small:
             for _ in range(per_class):
                 yield build_case(rng, kind, phase, bad)
+        if kind in ('itch', 'ouch', 'sqf'):
+            continue
         # maximum-size frames: the cuts that matter are after the length field, in the middle, before the last byte, and none
         for bad in (rng.sample(big, min(len(big), 6)) if quick else big):
             for style in (rng.sample(['whole', 'zone1', 'before-last-byte', 'frame+zone'], 2) if quick else
@@ -750,13 +827,13 @@ def run_hostile(ctx):
     ctx.cov['rule'] += ('; byte level (sess_hostile): valid frames + one malformed/extreme frame (class x packet type, hostile_gen) + valid frames '
                         'x segmentation x {soup client, soup server, FIX} x {before, after login}, fed through a transport with flow control, '
                         'followed by numbered probe frames; oracle on the implementation, reader event log replayed through Model/Framing.lean')
-    todo, shrunk, blocked = [], [0], set()
+    todo, shrunk, blocked, hangs = [], [0], set(), {}
     t_start = time.time()
 
     def do(case, tag):
         fam = family_of(case['cls'])
-        if fam in blocked:
-            ctx.count('hostile:skipped-after-block:' + fam)
+        if fam in blocked or hangs.get(case['sess'], 0) >= 2:
+            ctx.count('hostile:skipped-after-block:' + fam)       # (every further case would cost CASE_WALL seconds again)
             return
         res = run_case(case)
         ctx.case(describe(case), nontrivial=True, sample_every=211)
@@ -774,6 +851,7 @@ def run_hostile(ctx):
             rep = case
             if 'hang' in res or res['max_wall'] > WALL_PER_FRAME:
                 blocked.add(fam)           # every further case of the family would block the loop again
+                hangs[case['sess']] = hangs.get(case['sess'], 0) + 1
             elif shrunk[0] < 3:
                 shrunk[0] += 1
                 rep = shrink(case, v[0].split(':', 3)[-1][:30])
